@@ -58,7 +58,13 @@ fn gen_def(p: &mut Pool) -> OptSpec {
     } else {
         fields.extend(p.positionals(3));
     }
-    OptSpec::plain(Spec::Seq(fields))
+    let mut o = OptSpec::plain(Spec::Seq(fields));
+    // some definitions print their usage when they fail on a line with nothing on it; a word on
+    // the wrong side of `--` is something, the failure is reported
+    if p.rng.chance(1, 4) {
+        o.fallback_to_usage = true;
+    }
+    o
 }
 
 /// words that look like options, separators, commands or help requests
